@@ -64,7 +64,7 @@ def run(module, cfg=None, constants=None, workers=16, simulate=None, depth=None,
         run_cfg = os.path.join(work, module + ".cfg")
         with open(run_cfg, "w") as f:
             f.write(_cfg_text(cfg_path, constants))
-        cmd = ["java", "-XX:+UseParallelGC", "-Xmx" + heap, "-Xss64m"]
+        cmd = ["java", "-XX:+UseParallelGC", "-Xmx" + heap, "-Xss64m", "-Dfile.encoding=UTF-8", "-Dstdout.encoding=UTF-8"]
         cmd += list(javaopts or [])
         cmd += ["-cp", JAR + ":" + CM, "tlc2.TLC", "-metadir", os.path.join(work, "meta"), "-noGenerateSpecTE",
                 "-config", run_cfg]
@@ -95,7 +95,7 @@ def run(module, cfg=None, constants=None, workers=16, simulate=None, depth=None,
         res.wall = time.time() - t0
         tail = []
         nlines = 0
-        with open(out_path, errors="replace") as f:
+        with open(out_path, encoding="utf-8", errors="replace") as f:
             for line in f:
                 if line.startswith('"{'):
                     if raw_out is not None:
